@@ -68,16 +68,16 @@ func (*c14Prop) Components() map[string]interface{} {
 func (*c14Prop) Plans(tier string) []Plan {
 	if tier == "quick" {
 		return []Plan{
-			{Name: "plain", Workers: 6, Runs: 2500, MaxTime: 30e9},
-			{Name: "race", Race: true, Workers: 8, Runs: 1500, MaxTime: 35e9},
-			{Name: "race-cold", Race: true, Workers: 12, Runs: 1, MaxTime: 30e9, Cold: true},
+			{Name: "plain", Workers: 16, Runs: 4000, MaxTime: 30e9},
+			{Name: "race", Race: true, Workers: 16, Runs: 2500, MaxTime: 35e9},
+			{Name: "race-cold", Race: true, Workers: 16, Runs: 1, MaxTime: 30e9, Cold: true},
 		}
 	}
 	return []Plan{
-		{Name: "plain", Workers: 16, Runs: 60000, MaxTime: 360e9},
-		{Name: "race", Race: true, Workers: 16, Runs: 40000, MaxTime: 420e9},
-		{Name: "race-cold", Race: true, Workers: 96, Runs: 1, MaxTime: 60e9, Cold: true},
-		{Name: "plain-cold", Workers: 96, Runs: 1, MaxTime: 60e9, Cold: true},
+		{Name: "plain", Workers: 16, Runs: 4000000, MaxTime: 480e9},
+		{Name: "race", Race: true, Workers: 16, Runs: 4000000, MaxTime: 600e9},
+		{Name: "race-cold", Race: true, Workers: 128, Runs: 1, MaxTime: 60e9, Cold: true},
+		{Name: "plain-cold", Workers: 128, Runs: 1, MaxTime: 60e9, Cold: true},
 	}
 }
 
